@@ -355,10 +355,53 @@ func checkFlattenerDispatch(c *core.Ctx, r *core.Report) {
 func checkIndexTimestampKey(c *core.Ctx, r *core.Report) {
 	fn := c.Fn(pkgEsWriter, "ProcessIndexRequestPle")
 	extract := c.Obj(pkgUtils, "ExtractTimeStamp")
-	calls := callsTo(fn, extract)
-	r.Floor("DEPENDS", "timestamp extractions in ProcessIndexRequestPle", len(calls), 1)
-	loops := core.Loops(fn)
-	for i, call := range calls {
+	// the extraction loop lives in ProcessIndexRequestPle itself or in a helper of the same package that it
+	// calls on every path to a successful return (the loop extracted into a function of its own)
+	type site struct {
+		in   *ssa.Function
+		call *ssa.Call
+	}
+	var sites []site
+	for _, call := range callsTo(fn, extract) {
+		sites = append(sites, site{fn, call})
+	}
+	if len(sites) == 0 {
+		for _, ci := range core.CallsIn(fn) {
+			cg, ok := ci.(*ssa.Call)
+			if !ok {
+				continue
+			}
+			g := cg.Call.StaticCallee()
+			if g == nil || g.Blocks == nil || core.FnPkgPath(g) != core.FnPkgPath(fn) {
+				continue
+			}
+			inner := callsTo(g, extract)
+			if len(inner) == 0 {
+				continue
+			}
+			// the helper call is not skippable: it dominates every return that may report success
+			always := true
+			for _, ret := range core.Returns(fn) {
+				if core.ReturnSuccess(ret) == core.No {
+					continue
+				}
+				if !core.InstrDominates(cg, ret) {
+					always = false
+				}
+			}
+			if !always {
+				r.Violation("DEPENDS", fmt.Sprintf("%s:extraction-helper-%s-runs-on-every-successful-path", shortFn(fn), g.Name()), c.Pos(cg.Pos()),
+					"the helper that extracts the events' times with the index's key is skipped on a path that reports success: those events keep the parse-time value or the arrival time")
+			}
+			for _, call := range inner {
+				sites = append(sites, site{g, call})
+			}
+		}
+	}
+	r.Floor("DEPENDS", "timestamp extractions in ProcessIndexRequestPle", len(sites), 1)
+	for i, st := range sites {
+		call := st.call
+		loops := core.Loops(st.in)
 		construct := fmt.Sprintf("%s:extraction#%d-with-the-index's-key-runs-for-every-event", shortFn(fn), i+1)
 		lp := core.InnermostLoop(loops, call.Block())
 		if lp == nil {
